@@ -121,19 +121,24 @@ def _parse_atom_attributes(
     }
 
     optional_attrs = {
-        CHG: [int(i.split("=")[1]) for i in line if "CHG" in i],
+        CHG: _parse_atom_property_values(line, "CHG"),
         MASS: (
-            [int(i.split("=")[1]) for i in line if "MASS" in i]
+            _parse_atom_property_values(line, "MASS")
             if not isotope_mass
             else [isotope_mass]
         ),
-        RAD: [int(i.split("=")[1]) for i in line if "RAD" in i],
+        RAD: _parse_atom_property_values(line, "RAD"),
     }
     for key, val in optional_attrs.items():
         if val:
             atom_attrs[key] = val.pop()
 
     return atom_attrs, False
+
+
+def _parse_atom_property_values(line: list[str], key: str) -> list[int]:
+    # The keyword must match exactly: "EXACHG=1" is not a "CHG" property.
+    return [int(i.split("=")[1]) for i in line if i.split("=")[0] == key]
 
 
 def _parse_bond_block(
